@@ -19,6 +19,7 @@ P["C01"] = dict(
         "handle_inversion toggles iff requested and invertible, else Err",
         "R-GATHER-SCATTER: the inverse of adapt/axisswap is the exact reverse element mapping of the forward",
         "R-ITER-DEAD: no fixed-point / Newton iteration of an inverse stops before its first update",
+        "R-HELMERT-ALGEBRA: helmert inverse(forward(x)) = x as a polynomial identity (given R^T R = I)",
         "R-PAIRING: every invertible operator registers distinct fwd/inv functions; one-way operators register none",
         "R-CLONE-AGREE: constants recomputed by both the forward and the inverse function are the same expression",
         "R-GRID-SIGN: grid corrections are applied with opposite signs forward and inverse",
@@ -93,12 +94,14 @@ P["C07"] = dict(
              "R-ELEMENT-PRESERVE: helmert and molodensky never change the fourth coordinate",
              "R-ONCE: fixing t_obs advances T, R (per axis) and S (once) by their rates exactly once",
              "R-TRANSPOSE: the position_vector and coordinate_frame matrices are element-wise transposes",
+             "R-HELMERT-ALGEBRA: helmert_common's forward branch is T + S*R*x (T + S*x when unrotated) and its inverse "
+             "branch composed with it is the identity, as polynomial identities modulo R^T R = I; the fourth element is copied",
              "R-ROT-ORTHOGONAL: in exact mode R*R^T = I and det R = +1 hold as polynomial identities in the sines and "
              "cosines of the three angles (normal forms modulo s^2+c^2=1), for both conventions",
              "R-ALIAS-WIRING: element i of T/DT/R/DR comes from the i'th scalar alias or the i'th list element; "
              "S, DS from (scale|s), (scale_trend|ds)"],
-    not_decided=["that helmert_common multiplies by the matrix as T + (1+s) R x (only its loop structure is checked)",
-                 "molodensky accuracy", "second-order inverse accuracy in small-angle mode"],
+    not_decided=["molodensky accuracy", "second-order inverse accuracy in small-angle mode",
+                 "conversion constants (arc-seconds, ppm) beyond their wiring"],
     level="Decides the epoch-independence and untouched-time clauses; the algebraic clauses are not decided.",
     design_ref="DESIGN.md section 3, C07",
 )
